@@ -310,6 +310,9 @@ func (g *gen) genTarget() *vdev {
 	if r.Chance(6) {
 		b.add("tunnel-group DefaultL2LGroup ipsec-attributes", "peer-id-validate nocheck")
 	}
+	if r.Chance(12) {
+		b.add("no sysopt connection permit-vpn") // a managed line that itself starts with `no` (coverage item 12)
+	}
 	// references to built-in objects that the file does not define (coverage item 13)
 	hasDefRule := false
 	for _, x := range b.Blocks {
@@ -1124,6 +1127,16 @@ func (g *gen) genDevice(b *vdev) (*vdev, []string) {
 				}
 			}
 		}
+	}
+	// `no sysopt connection permit-vpn`: on the device only (must be removed by the positive form) or missing there
+	if x := a.findHead("no sysopt connection permit-vpn"); x != nil {
+		if r.Chance(50) {
+			a.removeBlock(x)
+			say("sysopt-line-missing-on-device")
+		}
+	} else if r.Chance(10) {
+		a.add("no sysopt connection permit-vpn")
+		say("sysopt-line-on-device-only")
 	}
 	// map-values whose DN is a single word lose their quotes on the device; a RADIUS / TACACS+ server group of the administrator
 	if r.Chance(40) {
